@@ -13,11 +13,14 @@ package gen
 //	type TarEntry struct{ Name string; Body []byte; Dir bool; Mode int64 }
 //	func BuildTar(entries []TarEntry) []byte           // ustar, fixed mtime/uid/gid: same input -> same bytes
 //	var  DebComps = []string{"none","gz","xz","bz2","lzma","zst"}
-//	func DebCompExt(comp string) string                 // "none" -> "", "gz" -> ".gz" ... (suffix after ".tar")
+//	func DebCompExt(comp string) string                 // "none" -> "", "gz" -> ".gz", "xz:9e" -> ".xz" ... (suffix after ".tar")
+//	func DebCompAlgo(comp string) string                // "xz:9e" -> "xz"
+//	func DebCompVariants(algo string) []string          // encoder-parameter variants of one encoding, default first
 //	func NewDebCompressor() *DebCompressor
 //	func (c *DebCompressor) Prepare(comps []string, blobs ...[]byte) error   // ONE python3 call for all xz/bz2 work
 //	func (c *DebCompressor) Compress(comp string, raw []byte) ([]byte, error) // cached; in-process for none/gz/lzma/zst
 //	func (c *DebCompressor) Unavailable() []string      // encodings no tool could produce ("xz","bz2") -> not covered
+//	func XZDictSize(z []byte) int64 / ZstdWindowSize(z []byte) int64 / LZMAAloneDictSize(z []byte) int64   // what a stream header declares
 //	type DebField struct{ Key, Value string }
 //	func RenderDebControl(fields []DebField) []byte    // "Key: value\n" lines; continuation lines are part of Value
 //	type DebModel struct{...}                           // see below
@@ -144,12 +147,52 @@ func BuildTar(entries []TarEntry) []byte {
 // DebComps lists the six member encodings of deb(5) in the order used for the 6x6 matrix.
 var DebComps = []string{"none", "gz", "xz", "bz2", "lzma", "zst"}
 
+// A "comp" string names an encoding and optionally the encoder parameters: "algo" or "algo:params".
+//
+//	none
+//	gz | gz:1 | gz:0              deflate level 9 (default) / 1 / stored blocks only
+//	xz | xz:0 | xz:9 | xz:9e | xz:dict=64M | xz:dict=16M     preset 6 (default) / 0 / 9 (64 MiB dict) / 9|extreme / preset 6 with that dictionary
+//	bz2 | bz2:1                   block size 900k (default) / 100k
+//	lzma | lzma:1 | lzma:eos | lzma:py9    kjk level 5 with size in header / level 1 / unknown size + end marker / liblzma preset 9 (64 MiB dict, end marker)
+//	zst | zst:fastest | zst:best | zst:window=64M | zst:window=1K    klauspost levels / explicit window in a multi-block frame
+//
+// The parameters change the bytes of the member, never what it decodes to.
+
+// DebCompAlgo is the encoding part of a comp string.
+func DebCompAlgo(comp string) string {
+	if i := strings.IndexByte(comp, ':'); i >= 0 {
+		comp = comp[:i]
+	}
+	if comp == "" {
+		return "none"
+	}
+	return comp
+}
+
 // DebCompExt is the suffix that follows "control.tar" / "data.tar" for an encoding.
 func DebCompExt(comp string) string {
-	if comp == "none" || comp == "" {
+	a := DebCompAlgo(comp)
+	if a == "none" {
 		return ""
 	}
-	return "." + comp
+	return "." + a
+}
+
+// DebCompVariants lists the encoder-parameter variants of one encoding; the first is the plain default.
+func DebCompVariants(algo string) []string {
+	switch algo {
+	case "gz":
+		return []string{"gz", "gz:1", "gz:0"}
+	case "xz":
+		return []string{"xz", "xz:0", "xz:9", "xz:9e", "xz:dict=16M", "xz:dict=64M"}
+	case "bz2":
+		return []string{"bz2", "bz2:1"}
+	case "lzma":
+		return []string{"lzma", "lzma:1", "lzma:eos", "lzma:py9"}
+	case "zst":
+		return []string{"zst", "zst:fastest", "zst:best", "zst:window=1K", "zst:window=64M"}
+	}
+	return []string{"none"}
 }
 
 // DebCompressor compresses blobs and remembers the results. gzip, lzma and zstd are produced in-process
@@ -171,7 +214,10 @@ func compKey(comp string, raw []byte) string {
 	return comp + ":" + string(h[:])
 }
 
-func isExternal(comp string) bool { return comp == "xz" || comp == "bz2" }
+func isExternal(comp string) bool {
+	a := DebCompAlgo(comp)
+	return a == "xz" || a == "bz2" || comp == "lzma:py9"
+}
 
 // Prepare makes sure every (comp, blob) pair is cached; all external work is done in one subprocess.
 // An encoding that cannot be produced is remembered (see Unavailable) and is not an error.
@@ -214,12 +260,22 @@ func (c *DebCompressor) Prepare(comps []string, blobs ...[]byte) error {
 import sys, json, base64, lzma, bz2
 jobs = json.load(sys.stdin)
 out = []
+def size(s):
+    return int(s[:-1]) << {"K": 10, "M": 20}[s[-1]]
 for j in jobs:
     raw = base64.b64decode(j["b64"])
-    if j["algo"] == "xz":
-        z = lzma.compress(raw, format=lzma.FORMAT_XZ, check=lzma.CHECK_CRC64, preset=1)
+    algo, _, par = j["algo"].partition(":")
+    if algo == "xz":
+        if par.startswith("dict="):
+            z = lzma.compress(raw, format=lzma.FORMAT_XZ, check=lzma.CHECK_CRC64,
+                              filters=[{"id": lzma.FILTER_LZMA2, "preset": 6, "dict_size": size(par[5:])}])
+        else:
+            preset = {"": 6, "0": 0, "9": 9, "9e": 9 | lzma.PRESET_EXTREME}[par]
+            z = lzma.compress(raw, format=lzma.FORMAT_XZ, check=lzma.CHECK_CRC64, preset=preset)
+    elif algo == "lzma":
+        z = lzma.compress(raw, format=lzma.FORMAT_ALONE, preset=9)
     else:
-        z = bz2.compress(raw, 9)
+        z = bz2.compress(raw, {"": 9, "1": 1}[par])
     out.append(base64.b64encode(z).decode())
 json.dump(out, sys.stdout)
 `
@@ -247,14 +303,14 @@ json.dump(out, sys.stdout)
 	}
 	// fall back to the command-line tools, one process per blob
 	for _, j := range jobs {
-		tool := map[string][]string{"xz": {"xz", "-1", "-c", "--check=crc64"}, "bz2": {"bzip2", "-9", "-c"}}[j.Algo]
+		tool := externalTool(j.Algo)
 		raw, _ := base64.StdEncoding.DecodeString(j.B64)
 		cmd := exec.Command(tool[0], tool[1:]...)
 		cmd.Stdin = bytes.NewReader(raw)
 		z, terr := cmd.Output()
 		if terr != nil {
 			c.mu.Lock()
-			c.unavail[j.Algo] = fmt.Sprintf("python3: %v; %s: %v", err, tool[0], terr)
+			c.unavail[DebCompAlgo(j.Algo)] = fmt.Sprintf("python3: %v; %s: %v", err, tool[0], terr)
 			c.mu.Unlock()
 			continue
 		}
@@ -263,6 +319,27 @@ json.dump(out, sys.stdout)
 		c.mu.Unlock()
 	}
 	return nil
+}
+
+// externalTool is the command-line fallback for one external comp string.
+func externalTool(comp string) []string {
+	algo, par := DebCompAlgo(comp), ""
+	if i := strings.IndexByte(comp, ':'); i >= 0 {
+		par = comp[i+1:]
+	}
+	switch {
+	case algo == "bz2" && par == "1":
+		return []string{"bzip2", "-1", "-c"}
+	case algo == "bz2":
+		return []string{"bzip2", "-9", "-c"}
+	case algo == "lzma":
+		return []string{"xz", "--format=lzma", "-9", "-c"}
+	case strings.HasPrefix(par, "dict="):
+		return []string{"xz", "-c", "--check=crc64", "--lzma2=preset=6,dict=" + strings.TrimSuffix(par[5:], "M") + "MiB"}
+	case par == "":
+		return []string{"xz", "-6", "-c", "--check=crc64"}
+	}
+	return []string{"xz", "-" + par, "-c", "--check=crc64"}
 }
 
 // Unavailable lists the encodings that no tool could produce, with the reason.
@@ -294,7 +371,7 @@ func (c *DebCompressor) Compress(comp string, raw []byte) ([]byte, error) {
 	}
 	c.mu.Lock()
 	z, ok = c.cache[k]
-	why := c.unavail[comp]
+	why := c.unavail[DebCompAlgo(comp)]
 	c.mu.Unlock()
 	if !ok {
 		return nil, fmt.Errorf("encoding %s not available: %s", comp, why)
@@ -304,18 +381,37 @@ func (c *DebCompressor) Compress(comp string, raw []byte) ([]byte, error) {
 
 func compressInProcess(comp string, raw []byte) ([]byte, error) {
 	var b bytes.Buffer
-	switch comp {
+	algo, par := DebCompAlgo(comp), ""
+	if i := strings.IndexByte(comp, ':'); i >= 0 {
+		par = comp[i+1:]
+	}
+	switch algo {
 	case "none":
 		return append([]byte(nil), raw...), nil
 	case "gz":
-		w, _ := gzip.NewWriterLevel(&b, gzip.BestCompression)
+		level, ok := map[string]int{"": gzip.BestCompression, "1": gzip.BestSpeed, "0": gzip.NoCompression}[par]
+		if !ok {
+			return nil, fmt.Errorf("unknown gzip parameter %q", comp)
+		}
+		w, _ := gzip.NewWriterLevel(&b, level)
 		w.Write(raw)
 		if err := w.Close(); err != nil {
 			return nil, err
 		}
 	case "lzma":
-		// legacy .lzma ("LZMA alone") with the size recorded in the header, as `xz --format=lzma` of a file does
-		w := lzma.NewWriterSizeLevel(&b, int64(len(raw)), lzma.DefaultCompression)
+		// legacy .lzma ("LZMA alone"); with the size recorded in the header, as `xz --format=lzma` of a file does,
+		// or (eos) with unknown size and an end-of-stream marker, as a pipe gives
+		size, level := int64(len(raw)), lzma.DefaultCompression
+		switch par {
+		case "":
+		case "1":
+			level = lzma.BestSpeed
+		case "eos":
+			size = -1
+		default:
+			return nil, fmt.Errorf("unknown lzma parameter %q", comp)
+		}
+		w := lzma.NewWriterSizeLevel(&b, size, level)
 		if _, err := w.Write(raw); err != nil {
 			return nil, err
 		}
@@ -323,11 +419,37 @@ func compressInProcess(comp string, raw []byte) ([]byte, error) {
 			return nil, err
 		}
 	case "zst":
-		w, err := zstd.NewWriter(&b, zstd.WithEncoderConcurrency(1))
+		opts := []zstd.EOption{zstd.WithEncoderConcurrency(1)}
+		split := false
+		switch {
+		case par == "":
+		case par == "fastest":
+			opts = append(opts, zstd.WithEncoderLevel(zstd.SpeedFastest))
+		case par == "best":
+			opts = append(opts, zstd.WithEncoderLevel(zstd.SpeedBestCompression))
+		case strings.HasPrefix(par, "window="):
+			n, err := strconv.Atoi(strings.TrimRight(par[7:], "KM"))
+			if err != nil {
+				return nil, fmt.Errorf("unknown zstd parameter %q", comp)
+			}
+			n <<= map[byte]uint{'K': 10, 'M': 20}[par[len(par)-1]]
+			// a frame written in two flushes is not "single segment", so its header declares this window
+			opts = append(opts, zstd.WithWindowSize(n), zstd.WithSingleSegment(false))
+			split = true
+		default:
+			return nil, fmt.Errorf("unknown zstd parameter %q", comp)
+		}
+		w, err := zstd.NewWriter(&b, opts...)
 		if err != nil {
 			return nil, err
 		}
-		w.Write(raw)
+		if split && len(raw) > 1 {
+			w.Write(raw[:len(raw)/2])
+			w.Flush()
+			w.Write(raw[len(raw)/2:])
+		} else {
+			w.Write(raw)
+		}
 		if err := w.Close(); err != nil {
 			return nil, err
 		}
@@ -425,4 +547,60 @@ func (m DebModel) Members(c *DebCompressor) ([]ArMember, error) {
 		{Name: m.ControlName(), Data: ct},
 		{Name: m.DataName(), Data: dt},
 	}, nil
+}
+
+// ---------------------------------------------------------------- stream header inspection (self-checks)
+
+// XZDictSize returns the LZMA2 dictionary size the first block of an xz stream declares (0 if not recognisable).
+func XZDictSize(z []byte) int64 {
+	if len(z) < 18 || string(z[:6]) != "\xfd7zXZ\x00" {
+		return 0
+	}
+	p := 12 // block header: size byte, flags, [compressed size], [uncompressed size], filters
+	flags := z[p+1]
+	q := p + 2
+	skipVarint := func() {
+		for q < len(z) && z[q]&0x80 != 0 {
+			q++
+		}
+		q++
+	}
+	if flags&0x40 != 0 {
+		skipVarint()
+	}
+	if flags&0x80 != 0 {
+		skipVarint()
+	}
+	if q+2 >= len(z) || z[q] != 0x21 || z[q+1] != 1 {
+		return 0
+	}
+	d := int64(z[q+2])
+	if d > 40 {
+		return 0
+	}
+	if d == 40 {
+		return 1<<32 - 1
+	}
+	return (2 | (d & 1)) << uint(d/2+11)
+}
+
+// ZstdWindowSize returns the window size a zstd frame header declares; 0 for a single-segment frame (window = content).
+func ZstdWindowSize(z []byte) int64 {
+	if len(z) < 6 || z[0] != 0x28 || z[1] != 0xb5 || z[2] != 0x2f || z[3] != 0xfd {
+		return 0
+	}
+	if z[4]&0x20 != 0 {
+		return 0
+	}
+	b := z[5]
+	base := int64(1) << (10 + uint(b>>3))
+	return base + base/8*int64(b&7)
+}
+
+// LZMAAloneDictSize returns the dictionary size in the 13-byte header of a legacy .lzma stream.
+func LZMAAloneDictSize(z []byte) int64 {
+	if len(z) < 13 {
+		return 0
+	}
+	return int64(z[1]) | int64(z[2])<<8 | int64(z[3])<<16 | int64(z[4])<<24
 }
